@@ -419,7 +419,10 @@ func c12(a *vlib.Args) {
 	nprobes := 0
 	for d := 1; d <= depth && len(frontier) > 0; d++ {
 		var next []node
-		for _, nd := range frontier {
+		for ni, nd := range frontier {
+			if a.Expired(int64(ni)) {
+				break // time budget: the frontier of this depth is left partly unexpanded (reported, not a violation)
+			}
 			var cands [][]int
 			if first {
 				cands = [][]int{nd.ops}
